@@ -60,6 +60,13 @@ def gen_request(ch):
     elif kind == 1:    # gemini + trailing garbage
         line = f"gemini://{HOST}/g".encode() + b"\r\n"
         extra = ch.bytes_("garbage", ch.biased_size("glen", 1, 4000, [1, 2, 100, 1024]))
+        if ch.chance("pipelined", 0.4):
+            # the "garbage" is a complete second request (pipelining is not part of the protocol:
+            # it must be ignored, never answered or dispatched)
+            extra = ch.pick("second", [f"gemini://{HOST}/second".encode() + b"\r\n",
+                                       f"titan://{HOST}/up/second.txt;size=3;mime=text/plain".encode()
+                                       + b"\r\nabc",
+                                       f"gemini://{HOST}/second".encode() + b"\r\n" * 3])
     elif kind == 2:    # titan, exact content
         size = ch.biased_size("tsize", 1, 6000, [1, 2, 10, 1000, 4096])
         content = ch.bytes_("content", size)
@@ -69,6 +76,9 @@ def gen_request(ch):
         size = ch.biased_size("tsize", 1, 3000, [1, 2, 10, 1000])
         content = ch.bytes_("content", size)
         extra = ch.bytes_("garbage", ch.biased_size("glen", 1, 3000, [1, 2, 100]))
+        if ch.chance("pipelined", 0.4):
+            extra = ch.pick("second", [f"titan://{HOST}/up/second.txt;size=3;mime=text/plain".encode()
+                                       + b"\r\nabc", f"gemini://{HOST}/second".encode() + b"\r\n"])
         line = f"titan://{HOST}/up/x.bin;size={size};mime=application/octet-stream".encode() + b"\r\n"
     elif kind == 4:    # titan zero-byte delete (+ maybe garbage)
         line = f"titan://{HOST}/up/f0.txt;size=0".encode() + b"\r\n"
